@@ -124,14 +124,62 @@ def _install(src, dst):
     return True
 
 
+ALT = os.path.realpath(vf.REPO) != os.path.realpath("/repo")
+SHARED_LOCK = os.path.join(vf.VERIF, "out", "c17gen.lock")
+
+
+class _SharedLock:
+    """the generated files live in the one shared coq/ tree, whatever VERIF_REPO / out directory a run uses"""
+
+    def __enter__(self):
+        import fcntl
+        os.makedirs(os.path.dirname(SHARED_LOCK), exist_ok=True)
+        self.f = open(SHARED_LOCK, "w")
+        fcntl.flock(self.f, fcntl.LOCK_EX)
+        return self
+
+    def __exit__(self, *a):
+        import fcntl
+        fcntl.flock(self.f, fcntl.LOCK_UN)
+        self.f.close()
+
+
+def _table_def(path):
+    """the table without the trailing comment (list of whitelisted callees that were met)"""
+    if not os.path.exists(path):
+        return None
+    return open(path).read().split("(* callees without analysed body")[0]
+
+
+def same_as_shared(d):
+    return _table_def(os.path.join(d, "Effects.v")) == _table_def(os.path.join(vf.COQ, "Gen", "Effects.v")) and \
+        os.path.exists(os.path.join(vf.COQ, "Gen", "EffectsOk.v")) and \
+        open(os.path.join(d, "EffectsOk.v")).read() == open(os.path.join(vf.COQ, "Gen", "EffectsOk.v")).read()
+
+
+def install_shared(d):
+    with _SharedLock():
+        ch1 = _install(os.path.join(d, "Effects.v"), os.path.join(vf.COQ, "Gen", "Effects.v"))
+        ch2 = _install(os.path.join(d, "EffectsOk.v"), os.path.join(vf.COQ, "Gen", "EffectsOk.v"))
+    return ch1 or ch2
+
+
 def regenerate():
-    """returns (ok, message, rows-json or None)"""
+    """runs the translator on VERIF_REPO (or finds its result in the cache) and decides where the table goes:
+
+    * run on /repo: coq/Gen/Effects.v and EffectsOk.v are replaced (only when their content differs);
+    * run on another checkout (VERIF_REPO): the shared coq/ tree is left alone when the table definition is
+      the same as the installed one (the usual case: the change under test does not touch mechanism writes);
+      when it differs AND lists receiver writes, the table is compiled privately under out/…/altcoq (logical
+      prefix HVP) so that a concurrent check of /repo is not disturbed; a different but clean table (a
+      mechanism type or method was added/removed) is installed like a run on /repo would.
+
+    returns (ok, message, rows-json or None)"""
     if "regen" in _state:
         return _state["regen"]
     key, nfiles = _source_hash()
     d = os.path.join(CACHE, key)
     hit = all(os.path.exists(os.path.join(d, n)) for n in ("Effects.v", "EffectsOk.v", "effects.json"))
-    msg = ""
     if not hit:
         binp, o = _tool_binary()
         if binp is None:
@@ -153,17 +201,51 @@ def regenerate():
         olds = sorted((os.path.getmtime(os.path.join(CACHE, x)), x) for x in os.listdir(CACHE))
         for _, x in olds[:-6]:
             shutil.rmtree(os.path.join(CACHE, x), ignore_errors=True)
-    with vf.Lock("c17gen.lock"):
-        ch1 = _install(os.path.join(d, "Effects.v"), os.path.join(vf.COQ, "Gen", "Effects.v"))
-        ch2 = _install(os.path.join(d, "EffectsOk.v"), os.path.join(vf.COQ, "Gen", "EffectsOk.v"))
     rows = json.load(open(os.path.join(d, "effects.json")))["rows"]
     neff = sum(len(m.get("effects") or []) for r in rows for m in r["methods"])
-    msg = "Gen/Effects.v regenerated from %s (%d source files, hash %s, %s): %d mechanism types, %d methods, %d write effects%s" % (
+    _state["dir"] = d
+    _state["private"] = False
+    if ALT and same_as_shared(d):
+        where = "table identical to the installed coq/Gen/Effects.v (left untouched)"
+    elif ALT and neff > 0:
+        _state["private"] = True
+        where = "table differs from the installed one and lists writes: compiled privately (HVP.Effects), coq/Gen left untouched"
+    else:
+        where = "coq/Gen/Effects.v " + ("replaced" if install_shared(d) else "unchanged")
+    msg = "effect table regenerated from %s (%d source files, hash %s, %s): %d mechanism types, %d methods, %d write effects; %s" % (
         vf.REPO, nfiles, key[:12], "cache hit" if hit else "translator run", len(rows),
-        sum(len(r["methods"]) for r in rows), neff, "; table changed" if (ch1 or ch2) else "")
+        sum(len(r["methods"]) for r in rows), neff, where)
     res = (True, msg, rows)
     _state["regen"] = res
     return res
+
+
+def private_build(d):
+    """compile the regenerated table, its Example and the evaluator under the logical prefix HVP in
+    out/…/C17/altcoq/HVP.  Returns (example_ok, eval_ok, log)"""
+    root = os.path.join(vf.OUT, PID, "altcoq")
+    pdir = os.path.join(root, "HVP")
+    shutil.rmtree(root, ignore_errors=True)
+    os.makedirs(pdir)
+    shutil.copyfile(os.path.join(d, "Effects.v"), os.path.join(pdir, "Effects.v"))
+    okv = open(os.path.join(d, "EffectsOk.v")).read().replace(
+        "From HV Require Import Base.Prelude C17.Model Gen.Effects.",
+        "From HV Require Import Base.Prelude C17.Model.\nFrom HVP Require Import Effects.")
+    open(os.path.join(pdir, "EffectsOk.v"), "w").write(okv)
+    ev = open(os.path.join(vf.COQ, "Run", "Eval_C17.v")).read().replace(
+        "From HV Require Export Base.Prelude C17.Model Gen.Effects.",
+        "From HV Require Export Base.Prelude C17.Model.\nFrom HVP Require Export Effects.")
+    open(os.path.join(pdir, "Eval.v"), "w").write(ev)
+    okm, o = vf.coq_make(["C17/Model.vo"])
+    log = "" if okm else o[-1500:]
+    res = {}
+    for n in ("Effects", "EffectsOk", "Eval"):
+        rc, o = vf.sh(["coqc", "-Q", vf.COQ, "HV", "-Q", pdir, "HVP", "-w", "-notation-overridden", n + ".v"], cwd=pdir, timeout=900)
+        res[n] = rc == 0
+        if rc != 0:
+            log += "\n%s.v: %s" % (n, o[-1200:])
+    os.environ["COQPATH"] = root + (":" + os.environ["COQPATH"] if os.environ.get("COQPATH") else "")
+    return res["Effects"] and res["EffectsOk"], res["Effects"] and res["Eval"], log
 
 
 def gen_effects_table(rep):
@@ -197,10 +279,19 @@ def custom(P, tier, seed, replay):
                           vf.TRUSTED_COMMON + P["trusted"], "harness/tools/effects -repo " + vf.REPO, P["assumptions"])
 
     # ---- the regenerated table lists receiver writes
-    okc, out = vf.coq_make(["Gen/EffectsOk.vo"])
-    if okc:
-        # the kernel accepts the table although the JSON lists effects: leave the decision to the generic runner
-        return runner.run_property(P, tier, seed, replay)
+    private = _state.get("private", False)
+    if private:
+        okc, oke, plog = private_build(_state["dir"])
+        if okc:
+            # the kernel accepts the table although the JSON lists effects: install it and let the generic runner decide
+            install_shared(_state["dir"])
+            return runner.run_property(P, tier, seed, replay)
+    else:
+        okc, out = vf.coq_make(["Gen/EffectsOk.vo"])
+        if okc:
+            return runner.run_property(P, tier, seed, replay)
+        oke, plog = vf.coq_make(["Run/Eval_C17.vo"])
+        plog = plog[-1500:]
     rep = vf.Report(PID, tier, seed)
     oks, msgs = selftest()
     rep.obligation("generate:gen_translator_selftest", oks)
@@ -218,11 +309,10 @@ def custom(P, tier, seed, replay):
         users = sorted({b["type"] + "." + b["method"] for b in bad if b["position"] == pos})
         print("  receiver write: %s %s in %s at %s  (reached from %s)" % (k, tgt, fn, pos, ", ".join(users[:6]) + (" ..." if len(users) > 6 else "")))
     rep.notes.append("effects_read_only fails: %d receiver-write effects in %d methods of %s" % (len(bad), len(meths), ", ".join(types)))
-    cmds = ["harness/tools/effects -repo %s -out coq/Gen" % vf.REPO, "make Gen/EffectsOk.vo (fails)"]
+    cmds = ["harness/tools/effects -repo %s" % vf.REPO, "coqc EffectsOk.v (fails)" + (" [private build, prefix HVP]" if private else "")]
     all_obs = []
-    oke, oute = vf.coq_make(["Run/Eval_C17.vo"])
     if not oke:
-        rep.notes.append("Run/Eval_C17.vo does not build: " + oute[-1500:])
+        rep.notes.append("the evaluator (Run/Eval_C17) does not build against the regenerated table: " + plog)
     else:
         for st in P["streams"]:
             st = dict(st)
@@ -234,7 +324,11 @@ def custom(P, tier, seed, replay):
                 rep.notes.append("focused stream %s failed rc=%s: %s" % (st["name"], rc, o[-1500:]))
                 rep.obligation("stream:" + st["name"], False)
                 continue
-            rowsv, shards, shards_ok, elog = runner.evaluate(PID, st, obs)
+            if private:
+                rowsv, shards, shards_ok, elog = vf.eval_cases(PID, "C17.Model", st["check_term"], [ob["coq"] for ob in obs],
+                                                               shard_size=st.get("shard", 400), extra_imports="From HVP Require Import Eval.")
+            else:
+                rowsv, shards, shards_ok, elog = runner.evaluate(PID, st, obs)
             if shards_ok != shards:
                 rep.notes.append("focused stream %s: evaluation failed: %s" % (st["name"], elog[-1500:]))
                 rep.obligation("stream:" + st["name"], False)
